@@ -1,11 +1,16 @@
 package checks
 
 import (
+	"context"
 	"encoding/json"
 	"fmt"
 	"math"
+	"os"
+	"os/exec"
 	"reflect"
+	"runtime"
 	"strings"
+	"sync"
 	"sync/atomic"
 	"time"
 	"unicode/utf8"
@@ -29,6 +34,8 @@ type c04Case struct {
 	ParamN int    `json:"param_n,omitempty"`
 	Ladder string `json:"ladder,omitempty"`
 	N      int    `json:"n,omitempty"`
+	Deep   bool   `json:"deep,omitempty"`  // the ladder is parsed in a child process (a stack overflow cannot be recovered from)
+	Scale  string `json:"scale,omitempty"` // one long token of N bytes, compared with the same token of N/8 bytes
 }
 
 var c04entries = []string{"ParseQuery", "ParseStatement", "ParseExpr"}
@@ -185,6 +192,174 @@ var c04ladders = map[string]func(n int) (string, int){
 	"whitespace":   func(n int) (string, int) { return "SELECT a" + strings.Repeat(" \n", n) + "FROM m", 1 },
 }
 
+// ---- very deep nesting, in a child process ------------------------------------------------------------------
+
+// C04DeepChild is the body of the child process: parse one ladder text and say how the call returned. A stack that
+// grows past the runtime's limit ends the process with a fatal error, which no recover() can turn into a result.
+func C04DeepChild(ladder string, n int) {
+	f, ok := c04ladders[ladder]
+	if !ok {
+		fmt.Println("c04-deep: no such ladder")
+		os.Exit(2)
+	}
+	t, e := f(n)
+	var err error
+	var res interface{}
+	p := influxql.NewParser(strings.NewReader(t))
+	switch e {
+	case 0:
+		res, err = p.ParseQuery()
+	case 1:
+		res, err = p.ParseStatement()
+	default:
+		res, err = p.ParseExpr()
+	}
+	msg := ""
+	if err != nil {
+		msg = err.Error()
+		if len(msg) > 120 {
+			msg = msg[:120]
+		}
+	}
+	fmt.Printf("c04-deep returned: result=%v error=%q\n", !isNilResult(res), msg)
+}
+
+var c04deepUnknown int64
+
+var c04deepLadders = []string{"parens", "stmt-parens", "subqueries", "calls", "unary-minus", "open-parens"}
+
+func c04deep(ladder string, n int) []ev.Finding {
+	exe, err := os.Executable()
+	if err != nil {
+		return nil
+	}
+	ctx, cancel := context.WithTimeout(context.Background(), 10*time.Minute)
+	defer cancel()
+	cmd := exec.CommandContext(ctx, exe, "c04-deep", ladder, fmt.Sprint(n))
+	out, runErr := cmd.CombinedOutput()
+	text := string(out)
+	if strings.Contains(text, "c04-deep returned:") {
+		return nil
+	}
+	if ctx.Err() != nil {
+		return nil // the child was stopped by the guard: no statement about it (the scan budget is the in-process oracle)
+	}
+	_, e := c04ladders[ladder](1)
+	cs := c04Case{Ladder: ladder, N: n, Entry: e, Deep: true}
+	var kind string
+	switch {
+	case strings.Contains(text, "stack overflow") || strings.Contains(text, "stack exceeds"):
+		kind = "stack-overflow"
+	case strings.Contains(text, "out of memory"):
+		kind = "out-of-memory"
+	case strings.Contains(text, "fatal error:") || strings.Contains(text, "panic:"):
+		kind = "crash"
+	default:
+		// ended from outside (a kill by the system) without a word from the Go runtime: nothing is known about the parse
+		atomic.AddInt64(&c04deepUnknown, 1)
+		return nil
+	}
+	first := text
+	if len(first) > 400 {
+		first = first[:400]
+	}
+	return []ev.Finding{{Sig: "fatal:" + kind + ":" + ladder, Witness: fmt.Sprintf("ladder %s n=%d (%s)", ladder, n, c04entries[e]),
+		Detail: fmt.Sprintf("%s on the %s ladder with n=%d does not return: the process ends (%v) with: %s", c04entries[e], ladder, n, runErr, first), Case: cs, Rank: n}}
+}
+
+// ---- one long token: work proportional to its length ----------------------------------------------------------
+
+var c04scales = map[string]func(n int) (string, int){
+	"block-comment":       func(n int) (string, int) { return "SELECT a FROM m /*" + strings.Repeat("x", n) + "*/", 0 },
+	"block-comment-open":  func(n int) (string, int) { return "SELECT a FROM m /*" + strings.Repeat("x", n), 0 },
+	"block-comment-stars": func(n int) (string, int) { return "SELECT a /*" + strings.Repeat("*", n) + "*/ FROM m", 0 },
+	"line-comment":        func(n int) (string, int) { return "SELECT a FROM m --" + strings.Repeat("x", n) + "\n", 0 },
+	"string":              func(n int) (string, int) { return "SELECT a FROM m WHERE b = '" + strings.Repeat("x", n) + "'", 1 },
+	"string-escapes":      func(n int) (string, int) { return "SELECT a FROM m WHERE b = '" + strings.Repeat("\\'", n/2) + "'", 1 },
+	"quoted-identifier":   func(n int) (string, int) { return "SELECT \"" + strings.Repeat("x", n) + "\" FROM m", 1 },
+	"identifier":          func(n int) (string, int) { return "SELECT " + strings.Repeat("x", n) + " FROM m", 1 },
+	"digits":              func(n int) (string, int) { return "SELECT a FROM m WHERE b = " + strings.Repeat("1", n), 1 },
+	"regex":               func(n int) (string, int) { return "SELECT a FROM m WHERE b =~ /" + strings.Repeat("x", n) + "/", 1 },
+	"whitespace":          func(n int) (string, int) { return "SELECT a" + strings.Repeat(" \n", n/2) + "FROM m", 1 },
+	"short-comments":      func(n int) (string, int) { return "SELECT a " + strings.Repeat("/**/", n/4) + " FROM m", 1 },
+	"expression-string":   func(n int) (string, int) { return "a = '" + strings.Repeat("x", n) + "'", 2 },
+	"expression-comment":  func(n int) (string, int) { return "a /*" + strings.Repeat("x", n) + "*/ + 1", 2 },
+	"placeholder":         func(n int) (string, int) { return "SELECT a FROM m WHERE b = $" + strings.Repeat("x", n), 1 },
+	"unterminated-string": func(n int) (string, int) { return "SELECT a FROM m WHERE b = '" + strings.Repeat("x", n), 1 },
+	"unterminated-regex":  func(n int) (string, int) { return "SELECT a FROM m WHERE b =~ /" + strings.Repeat("x", n), 1 },
+	"invalid-utf8":        func(n int) (string, int) { return "SELECT a FROM m WHERE b = '" + strings.Repeat("\xff", n) + "'", 1 },
+	"duration-components": func(n int) (string, int) { return "SELECT a FROM m WHERE b = " + strings.Repeat("1h", n/2), 1 },
+}
+
+var c04scaleMu sync.Mutex
+
+// c04measure parses the text once and returns the bytes allocated and the time taken.
+func c04measure(text string, entry int) (alloc uint64, d time.Duration, pv interface{}) {
+	var m0, m1 runtime.MemStats
+	runtime.ReadMemStats(&m0)
+	t0 := time.Now()
+	pv, _ = try(func() {
+		p := influxql.NewParser(strings.NewReader(text))
+		switch entry {
+		case 0:
+			p.ParseQuery()
+		case 1:
+			p.ParseStatement()
+		default:
+			p.ParseExpr()
+		}
+	})
+	d = time.Since(t0)
+	runtime.ReadMemStats(&m1)
+	return m1.TotalAlloc - m0.TotalAlloc, d, pv
+}
+
+// c04scale compares one long token of n bytes with the same token of n/8 bytes. Work proportional to the length
+// means about eight times the allocation and the time; quadratic work means sixty-four times. The allocation count is
+// exact and is the deciding measure (run alone, nothing else allocates); time decides only when the longer parse takes
+// at least five seconds in the fastest of three runs, where a linear scanner needs milliseconds.
+func c04scale(name string, n int) []ev.Finding {
+	f, ok := c04scales[name]
+	if !ok {
+		return nil
+	}
+	c04scaleMu.Lock()
+	defer c04scaleMu.Unlock()
+	small, e := f(n / 8)
+	large, _ := f(n)
+	cs := c04Case{Scale: name, N: n, Entry: e}
+	wit := fmt.Sprintf("%s with one %s of %d bytes", c04entries[e], name, n)
+	c04measure(small, e) // warm-up: lazily built tables are not charged to either size
+	a1, t1, p1 := c04measure(small, e)
+	if p1 != nil {
+		return []ev.Finding{{Sig: "panic:" + c04entries[e] + ":" + panicClass(p1), Witness: wit, Detail: fmt.Sprint(p1), Case: cs, Rank: n}}
+	}
+	a8, t8, p8 := c04measure(large, e)
+	if p8 != nil {
+		return []ev.Finding{{Sig: "panic:" + c04entries[e] + ":" + panicClass(p8), Witness: wit, Detail: fmt.Sprint(p8), Case: cs, Rank: n}}
+	}
+	const slack = 4 << 20
+	if a8 > 24*a1+slack {
+		return []ev.Finding{{Sig: "allocation-not-linear:" + name, Witness: wit,
+			Detail: fmt.Sprintf("%d bytes allocated for %d input bytes but %d for %d: growth %.1fx for 8x the input (a linear scanner gives about 8x, a quadratic one 64x)", a1, len(small), a8, len(large), float64(a8)/float64(a1+1)), Case: cs, Rank: n}}
+	}
+	if t8 >= 5*time.Second && t8 > 24*t1 {
+		for i := 0; i < 2; i++ {
+			if _, t, _ := c04measure(small, e); t > t1 {
+				t1 = t // the slower reading of the short text, the faster of the long one: both favour the code under test
+			}
+			if _, t, _ := c04measure(large, e); t < t8 {
+				t8 = t
+			}
+		}
+		if t8 >= 5*time.Second && t8 > 24*t1 {
+			return []ev.Finding{{Sig: "time-not-linear:" + name, Witness: wit,
+				Detail: fmt.Sprintf("%v for %d input bytes but %v for %d (fastest of three): growth %.0fx for 8x the input", t1, len(small), t8, len(large), float64(t8)/float64(t1+1)), Case: cs, Rank: n}}
+		}
+	}
+	return nil
+}
+
 // ---- adversarial parameter values ----------------------------------------------------------------------------
 
 type c04param struct {
@@ -336,6 +511,12 @@ func init() {
 		}
 		var c c04Case
 		json.Unmarshal(raw, &c)
+		if c.Deep {
+			return c04deep(c.Ladder, c.N)
+		}
+		if c.Scale != "" {
+			return c04scale(c.Scale, c.N)
+		}
 		if c.Ladder != "" {
 			t, e := c04ladders[c.Ladder](c.N)
 			f, _ := c04parse(t, e, nil, c, fmt.Sprintf("ladder %s n=%d", c.Ladder, c.N), c.N)
@@ -421,9 +602,9 @@ func c04run(r *ev.Run) {
 	runGrammar(r, psets, c04paramBody)
 	r.Set("bound_sets", []interface{}{editNames, r.Extra["bound_sets"]})
 	// (c) nesting ladders
-	maxN := 1024
+	maxN := 4096
 	if th {
-		maxN = 4096
+		maxN = 16384
 	}
 	var names []string
 	for name := range c04ladders {
@@ -444,6 +625,39 @@ func c04run(r *ev.Run) {
 			}
 		}
 	}
+	// (c2) the nesting ladders once more at a depth of about a million, each in a child process
+	deepN := 1 << 20
+	for i := range c04deepLadders { // one child at a time: each may grow its stack to the runtime's limit of 1 GB
+		fs := c04deep(c04deepLadders[i], deepN)
+		r.Eval()
+		r.State(astx.HashString(fmt.Sprintf("D|%s|%d", c04deepLadders[i], deepN)), true)
+		for _, f := range fs {
+			r.Report(f)
+		}
+	}
+	r.Set("deep_ladder_children_ended_from_outside", atomic.LoadInt64(&c04deepUnknown))
+	r.Set("deep_ladders_in_child_process", c04deepLadders)
+	r.Set("deep_ladder_n", deepN)
+	// (c3) one long token: allocation and time for 8x the length (sequential: the allocation counter is process-wide)
+	scaleN := 256 << 10
+	if th {
+		scaleN = 1 << 20
+	}
+	var scaleNames []string
+	for name := range c04scales {
+		scaleNames = append(scaleNames, name)
+	}
+	sortStrings(scaleNames)
+	for _, name := range scaleNames {
+		fs := c04scale(name, scaleN)
+		r.Eval()
+		r.State(astx.HashString(fmt.Sprintf("X|%s|%d", name, scaleN)), true)
+		for _, f := range fs {
+			r.Report(f)
+		}
+	}
+	r.Set("long_token_shapes", scaleNames)
+	r.Set("long_token_bytes", scaleN)
 	// (d) every prefix operator chain of length <= 2 in front of every operand kind, as an expression, a field, a
 	// condition, a call argument and a dimension (the sign branch of the expression parser has one case per kind)
 	signs := []string{"", "+", "-", "+ +", "- -", "+ -", "- +", "-(", "+(", "(+", "(-"}
@@ -486,6 +700,6 @@ func c04run(r *ev.Run) {
 	r.Set("parses_slower_than_hang_guard_but_finished", atomic.LoadInt64(&c04slow))
 	r.Set("deepest_rune_pushback_observed", atomic.LoadInt64(&c04maxRunePush))
 	r.Set("scan_budget", "40*(runes+8) token reads per parse, enforced by the hook")
-	r.Rule = fmt.Sprintf("(a) every concatenation of <=%d lexeme spellings from %d x {ParseQuery, ParseStatement, ParseExpr}; (b) every single-token edit (delete / replace by each spelling / insert each spelling) at every position of every statement of the grammar model within the bound; (c) %d nesting/length ladders for n = 1,2,4,…,%d; (d) every byte string of length <=2 and every length-3 string over %d selected bytes; (e) every value slot of the grammar corpus replaced by a placeholder bound to each of %d adversarial values (and unbound / empty). Oracle: no panic; (result,nil) xor (nil,error); no read of an unfilled or overwritten pushback slot (hook); token reads <= 40*(runes+8) (hook budget, a deterministic stand-in for time proportional to the input); String() and Walk of a result do not panic. non-trivial = non-empty input", k, n, len(c04ladders), maxN, len(sel), len(c04params))
+	r.Rule = fmt.Sprintf("(a) every concatenation of <=%d lexeme spellings from %d x {ParseQuery, ParseStatement, ParseExpr}; (b) every single-token edit (delete / replace by each spelling / insert each spelling) at every position of every statement of the grammar model within the bound; (c) %d nesting/length ladders for n = 1,2,4,…,%d, the six nesting ladders again at n = 2^20 in a child process (a stack overflow ends the process), and 19 shapes of one long token at n and n/8 bytes (allocation and time must grow about 8x, not 64x); (d) every byte string of length <=2 and every length-3 string over %d selected bytes; (e) every value slot of the grammar corpus replaced by a placeholder bound to each of %d adversarial values (and unbound / empty). Oracle: no panic; (result,nil) xor (nil,error); no read of an unfilled or overwritten pushback slot (hook); token reads <= 40*(runes+8) (hook budget, a deterministic stand-in for time proportional to the input); String() and Walk of a result do not panic. non-trivial = non-empty input", k, n, len(c04ladders), maxN, len(sel), len(c04params))
 	r.Assumptions = []string{"random and coverage-guided generation named in the property's quantifier belong to another technique family and are not attempted", "linearity is measured in scanner calls, not wall-clock time"}
 }
